@@ -63,6 +63,10 @@ pub struct Plan {
     pub max_peers: usize,
     pub max_addrs: usize,
     pub expiry_s: u64,
+    /// the stores are built the way antnode builds them: BootstrapCacheStore::new_from_peers_args with a
+    /// --bootstrap-cache-dir (the cache file then lives in that directory, not at the config's own path)
+    #[serde(default)]
+    pub via_peers_args: bool,
     pub steps: Vec<Step>,
 }
 
@@ -253,6 +257,7 @@ impl Sim for BootcacheSim {
             max_peers,
             max_addrs,
             expiry_s,
+            via_peers_args: rng.chance(1, 3),
             steps,
         }
     }
